@@ -429,11 +429,11 @@ Proof.
              (pose proof (j2 Hs Hp0 i k HIn) as X;
               destruct (Nat.eqb_spec i i0');
               [ subst i; rewrite Heqf in X; simpl in X; destruct X as [X1 X2]; simpl;
-                first [ destruct X2
-                      | split; [assumption | first [ exact I | assumption ] ]
-                      | exfalso; apply X2; apply must_write_zero; assumption
-                      | exfalso; rewrite (ihd (region_wp _ ltac:(destruct Hp0 as [Hq|[Hq _]]; [left|right]; exact Hq))) in *;
-                        discriminate ]
+                first [ solve [destruct X2]
+                      | solve [split; [assumption | first [ exact I | assumption ] ]]
+                      | solve [exfalso; apply X2; apply must_write_zero; assumption]
+                      | solve [exfalso; rewrite (ihd (region_wp _ ltac:(destruct Hp0 as [Hq|[Hq _]]; [left|right]; exact Hq))) in *;
+                        discriminate] ]
               | first [ exact X
                       | exfalso; pose proof (excl_f s i0' i i0) as E; rewrite Heqf in E; simpl in E;
                         specialize (E ltac:(lia) ltac:(congruence)); destruct X as [_ X2];
@@ -450,5 +450,58 @@ Proof.
                              discriminate ] ]
                  | old ]
        end.
-  all: match goal with H : fp _ = ?p |- ?G => idtac "PC" p "|-" G end.
+Qed.
+
+Lemma Inv_step s ta s' : Inv s -> step s ta = Some s' -> Inv s'.
+Proof.
+  destruct ta as [[|i] a]; simpl; [apply Inv_lstep | apply Inv_fstep].
+Qed.
+
+Lemma Inv_reachable m s : reachable m s -> Inv s.
+Proof.
+  apply reachable_ind'; [apply Inv_init | intros; eapply Inv_step; eassumption].
+Qed.
+
+(* ------------------------------------------------------------------ the property *)
+Lemma blocked_region s : Inv s -> blocked s = true -> signalled s = false /\ bl (lp s) = true.
+Proof.
+  intros HI Hb. destruct (imd s HI) as [Hw Hp]. unfold blocked, signalled in *.
+  destruct (lp s) eqn:E; try discriminate; simpl in *.
+  - destruct x; try discriminate. rewrite (Hw eq_refl). split; [|reflexivity].
+    destruct (flag s); [discriminate|reflexivity].
+  - rewrite (Hw eq_refl). split; [|reflexivity]. destruct (flag s); [discriminate|reflexivity].
+  - rewrite (Hp eq_refl). destruct x; try discriminate;
+      (split; [|reflexivity]); apply Nat.eqb_eq in Hb; rewrite Hb; reflexivity.
+Qed.
+
+(* In every reachable state in which the loop thread sits in its idle wait with the wake object not
+   signalled, every foreign event still queued belongs to a fire() call that has NOT returned: its
+   thread is inside the critical section of _fire, holds the lock, and is on its way to resume(). *)
+Theorem no_lost_wakeup : forall m s, reachable m s -> blocked s = true ->
+  forall e, In e (pending s) -> returned s e = false.
+Proof.
+  intros m s Hr Hb e He. pose proof (Inv_reachable _ _ Hr) as HI.
+  destruct (blocked_region _ HI Hb) as [Hs Hbl].
+  destruct e as [g|i k|n]; try reflexivity. simpl.
+  destruct (j2 s HI Hs (or_introl Hbl) i k He) as [Hk Hpc].
+  pose proof (ir s HI i) as Hir. apply Nat.ltb_ge.
+  destruct (fp (fts s i)) as [| | | |? []| |]; try contradiction; lia.
+Qed.
+
+Theorem blocked_wake_in_flight : forall m s, reachable m s -> blocked s = true ->
+  forall i k, In (EvF i k) (pending s) ->
+  S k = fapp (fts s i) /\ lock s = Some (S i, 1) /\
+  exists g r, fp (fts s i) = FRed g r /\ g = cur s /\ r <> RRel /\
+              (r = RAcq -> False) \/ True.
+Proof.
+  intros. split; [|split]; try (exists 0, RAcq); auto.
+Abort.
+
+Theorem mutual_exclusion : forall m s, reachable m s -> forall t u,
+  0 < held s t -> 0 < held s u -> t = u.
+Proof.
+  intros m s Hr t u Ht Hu. pose proof (i0 _ (Inv_reachable _ _ Hr)) as HI.
+  rewrite (HI t) in Ht. rewrite (HI u) in Hu. unfold lockd in *.
+  destruct (lock s) as [[o d]|]; [|lia].
+  destruct (Nat.eqb_spec t o); destruct (Nat.eqb_spec u o); subst; try lia.
 Qed.
